@@ -61,6 +61,20 @@ def variants(toks, pairs):
     # share one (file, line, column) - anything keyed by a token's position collides
     for name, d in _directives():
         yield (f"dirall:{name}", ["\n"] * (n - 1), {g: [d] for g in range(n)})
+    # blanks inside a #pragma line: between '#' and the word, and between the
+    # word and the text (PPPRAGMA and PPPRAGMASTR are two tokens); trailing
+    # blanks belong to the text and stay
+    for i, t in enumerate(toks):
+        if "#" in t and layout.is_pragma_token(t):
+            d = layout.parse_pragma_token(t)
+            if d.str is None:
+                continue
+            body = t.rstrip("\n")
+            text = body[body.index("pragma") + 6:].lstrip(" \t")
+            for hg, tg in (("", "  "), ("", "\t"), ("", " \t "), (" ", " "), ("\t ", "\t\t"), ("", "   \t")):
+                alt = list(toks)
+                alt[i] = "#" + hg + "pragma" + tg + text + "\n"
+                yield (f"pragma-blanks{i}:{len(hg)}{len(tg)}", base, None, alt)
     if pairs:
         for g1, g2 in itertools.combinations(range(n - 1), 2):
             for s1, s2 in (("\n", "\n"), ("\n", "\t"), ("\t", "\n")):
@@ -86,8 +100,8 @@ def _work(task):
         if b[0][0] == "rejected":
             continue
         distinct += 1
-        for name, seps, dirs in variants(toks, len(toks) <= pair_max):
-            lay = layout.lay_out(toks, seps, dirs, filename=FILENAME)
+        for name, seps, dirs, *alt in variants(toks, len(toks) <= pair_max):
+            lay = layout.lay_out(alt[0] if alt else toks, seps, dirs, filename=FILENAME)
             v = _observe(lay.text)
             n += 1
             kind = name.split(":")[-1] if ":" in name else name
